@@ -107,14 +107,17 @@ Definition model_drain (c : cfg) (f : fsys) (limit : nat) : option (list bytes) 
   | None => None
   end.
 
+(* all crash points are looked at: a property violation anywhere wins over a mere difference from the model *)
 Fixpoint c08_check (c : cfg) (E : list bytes) (limit : nat) (model : list (fsys * ghost)) (obs : list (fsys * list bytes)) : N :=
   match model, obs with
   | [], [] => 0
   | (mf, g) :: model', (ofs, dr) :: obs' =>
+      let rest := c08_check c E limit model' obs' in
       if negb (recover_ok E g dr) then 2
+      else if rest =? 2 then 2
       else if negb (fsys_eqb mf ofs) then 1
       else match model_drain c mf limit with
-           | Some md => if list_eqb beqb md dr then c08_check c E limit model' obs' else 1
+           | Some md => if list_eqb beqb md dr then rest else 1
            | None => 1
            end
   | _, _ => 1
